@@ -47,6 +47,15 @@ def run_inproc(case):
         else:
             outs.append((r.code, r.out, r.err))
         draws = draws or _draws_randomness(case['seed'], junk)
+    if case.get('seed_twice') is not None and tool in ('cnfgen', 'pbgen'):
+        # the option given twice: the last value counts, so the output is the one of the last value alone
+        random.seed(case['junk1'])
+        r = cli.run_main(tool, argv_gen.seed_tokens(case['seed_twice'], case['junk2']) + list(args), stdin_text)
+        c = (r.code, r.out, type(r.exc).__name__ if r.exc is not None else r.err)
+        strip = lambda t: '\n'.join(l for l in t.split('\n') if 'command line' not in l and 'cnfgen ' not in l and 'pbgen ' not in l)      # noqa: the header quotes the argv
+        if (c[0], strip(c[1])) != (outs[0][0], strip(outs[0][1])):
+            raise Violation("{} {}: with an earlier '--seed {}' in front the output differs (the last --seed must win)".format(
+                tool, ' '.join(args), case['seed_twice']))
     a, b = outs
     if a != b:
         what = 'exit status' if a[0] != b[0] else ('standard output' if a[1] != b[1] else 'error output')
@@ -125,7 +134,10 @@ def strat_inproc(draw):
         args = argv_gen.seed_tokens(seed, sform if sform < argv_gen.SEED_FORMS else 0) + out + cmd + chain
         if 0 < sform < argv_gen.SEED_FORMS:
             labels.append('seed-spelled-differently')
-    return {'tool': tool, 'args': args, 'seed': seed, 'stdin': stdin_text, 'labels': labels,
+    twice = draw(st.integers(0, 99)) if draw(st.integers(0, 4)) == 0 else None
+    if twice is not None:
+        labels = labels + ['seed-given-twice']
+    return {'tool': tool, 'args': args, 'seed': seed, 'stdin': stdin_text, 'labels': labels, 'seed_twice': twice,
             'junk1': draw(st.integers(0, 1000)), 'junk2': draw(st.integers(1001, 2000))}
 
 
@@ -357,9 +369,9 @@ def enum_libseed(tier):
 
 SUBCHECKS = [
     SubCheck('inproc', run_inproc, strategy=strat_inproc, quick=800, thorough=60000,
-             rule="command lines with --seed (seeds 0, 1, -1, 2^31, 2^64+3 and random; the option spelled '--seed N', '-S N', '--seed=N', '-SN' or '--see N') for cnfgen (+ -T chains), pbgen and cnfshuffle (DIMACS on stdin): every graph-taking sub-command with random and deterministic graph constructions and random modifiers, numeric random sub-commands, deterministic ones, '-T xorcomp|majcomp <random bipartite construction>' with the graph sampled while the command line is parsed, all output formats; oracle: two in-process runs of main() started from two different states of the global generator print identical (exit status, stdout, stderr) and no object address; non-trivial: exit 0 and the global generator was advanced past a freshly seeded state (the run drew random numbers)",
+             rule="command lines with --seed (seeds 0, 1, -1, 2^31, 2^64+3 and random; the option spelled '--seed N', '-S N', '--seed=N', '-SN' or '--see N') for cnfgen (+ -T chains), pbgen and cnfshuffle (DIMACS on stdin): every graph-taking sub-command with random and deterministic graph constructions and random modifiers, numeric random sub-commands, deterministic ones, '-T xorcomp|majcomp <random bipartite construction>' with the graph sampled while the command line is parsed, all output formats; oracle: two in-process runs of main() started from two different states of the global generator print identical (exit status, stdout, stderr) and no object address; in a fifth of the cases a second, earlier --seed is put in front and the output (apart from the header line quoting the command line) must be the one of the last value alone; non-trivial: exit 0 and the global generator was advanced past a freshly seeded state (the run drew random numbers)",
              required_labels=['seed=0', 'random-graph-arg', 'random-family', 'random-transformation', 'two-random-sources',
-                              'pbgen', 'cnfshuffle', 'cnfgen', 'deterministic-family', 'graph-in-T', 'seed-spelled-differently']),
+                              'pbgen', 'cnfshuffle', 'cnfgen', 'deterministic-family', 'graph-in-T', 'seed-spelled-differently', 'seed-given-twice']),
     SubCheck('xproc', run_xproc, strategy=strat_xproc, quick=32, thorough=1600,
              rule="batches of 1..30 of the same command lines, each batch executed in two fresh processes with different PYTHONHASHSEED (0/1/4242 vs random/17/99999) and different working directories (the checkout vs a sub-directory, with a blank in its name, of an unrelated tagged git repository); oracle: identical exit status and stdout bytes (header included); non-trivial: exit 0",
              required_labels=['cross-process', 'cross-cwd']),
